@@ -17,6 +17,8 @@ def opOfJson (op : Json) : Except String (Op Float) := do
   let name ← a[0]!.getStr?
   match name with
   | "start" => pure (.start (← (← a[1]!.getArr?).toList.mapM v3OfJson))
+  | "startFile" =>    -- start_mission_with_waypoint_file: a[1] = the numbers on the lines of the file
+    pure (.start (readWaypoints (← (← a[1]!.getArr?).toList.mapM v3OfJson)))
   | "stop" => pure .stop
   | "setWaypoint" => pure (.setWaypoint (← a[1]!.getInt?))
   | "setReversed" => pure (.setReversed (← a[1]!.getBool?))
@@ -43,7 +45,7 @@ def obs (before after : State Float) (o : Out) : Json :=
     ("cmds", Json.arr (fresh.map jsonOfCmd).toArray)]
 
 /-- mission histories: `loop` NO|RESTART|REVERSE, `speed`/`tol` as float bits, ops
-    ["start", [p…]] | ["stop"] | ["setWaypoint", i] | ["setReversed", b] | ["telemetry", p] -/
+    ["start", [p…]] | ["startFile", [p…], …] | ["stop"] | ["setWaypoint", i] | ["setReversed", b] | ["telemetry", p] -/
 def run (j : Json) : Except String Json := do
   let cfg : Config Float := {
     speed := ← floatOfBits (← field j "speed"),
